@@ -40,9 +40,9 @@ def contains : Str → Str → Bool
 
 /-- `strings.Cut(x, sep)` for a one-character separator: (before, after, found). -/
 def cutChar (x : Str) (c : Char) : Str × Str × Bool :=
-  match x.span (· != c) with
-  | (b, []) => (b, [], false)
-  | (b, _ :: a) => (b, a, true)
+  match x.dropWhile (· != c) with
+  | [] => (x, [], false)
+  | _ :: a => (x.takeWhile (· != c), a, true)
 
 /-- `strings.Split(x, sep)` for a one-character separator (always at least one element). -/
 def splitChar (x : Str) (c : Char) : List Str :=
